@@ -16,6 +16,7 @@ from vt import extract
 from vt.common import NCPU
 from vt.pyvc import sym
 from vt.pyvc.driver import verify_instance
+from vt.pyvc.interp import AbsArr
 from vt.pyvc.sym import Entry, SymArray
 
 FILES = {
@@ -28,6 +29,8 @@ FILES = {
     "partial_trace": ("toqito/channels/partial_trace.py", "partial_trace"),
     "partial_transpose": ("toqito/channels/partial_transpose.py", "partial_transpose"),
     "realignment": ("toqito/channels/realignment.py", "realignment"),
+    "symmetric_projection": ("toqito/perms/symmetric_projection.py", "symmetric_projection"),
+    "antisymmetric_projection": ("toqito/perms/antisymmetric_projection.py", "antisymmetric_projection"),
 }
 
 SUMMARIES = {
@@ -36,6 +39,10 @@ SUMMARIES = {
     "swap": IL.summary_swap,
     "partial_trace": IL.summary_partial_trace,
     "partial_transpose": IL.summary_partial_transpose,
+    "perm_sign": IL.summary_perm_sign,
+    "permutation_operator": IL.summary_permutation_operator,
+    "permutations": lambda interp, args, kw: list(itertools.permutations(*[list(a) if not isinstance(a, int) else a for a in args])),
+    "orth": lambda interp, args, kw: AbsArr(None),
 }
 
 # which callee contracts each function's verification may use (callers never see callee bodies)
@@ -49,6 +56,8 @@ CALLEES = {
     "partial_trace": ["permute_systems"],
     "partial_transpose": ["permute_systems"],
     "realignment": ["swap", "partial_transpose"],
+    "symmetric_projection": ["permutation_operator", "permutations", "orth"],
+    "antisymmetric_projection": ["perm_sign", "permutation_operator", "permutations", "orth"],
 }
 
 
@@ -355,6 +364,25 @@ def inst_realign(dimform):
     return label, run
 
 
+def inst_projector(which, p, partial):
+    label = "%s p=%d partial=%s, all dim >= 1" % (which, p, partial)
+
+    def run(S):
+        d = sp.Symbol("d", integer=True, positive=True)
+
+        def mk():
+            return [d, p, partial], {}, [sp.Ge(d, 1)]
+
+        def spec(args, kw):
+            return None
+
+        recs, ms = verify_instance(which, label, {which: S.fn[which]}, _contracts_for(which), mk, spec, lambda a, k: [], atoms=[d], expect_kind="abstract")
+        rc = [dict(clause="proj.%s" % ("sym" if which.startswith("sym") else "antisym"), function=which, input_class="%s/p=%d" % (which, p), params=dict(d=dd, p=p, partial=partial)) for dd in (1, 2, 3) if dd**p <= 256]
+        return recs, ms, rc
+
+    return label, run
+
+
 # ---------------------------------------------------------------------------------------------
 # instance sets
 # ---------------------------------------------------------------------------------------------
@@ -444,6 +472,15 @@ def instances_C03(tier):
                         out.append(inst_ptranspose(n, S, "array", dimform))
     out.append(inst_realign("list"))
     out.append(inst_realign("2row"))
+    return out
+
+
+def instances_C18(tier):
+    out = []
+    for p in (1, 2, 3, 4) + ((5,) if tier == "thorough" else ()):
+        for partial in (False, True):
+            out.append(inst_projector("symmetric_projection", p, partial))
+            out.append(inst_projector("antisymmetric_projection", p, partial))
     return out
 
 
